@@ -43,7 +43,9 @@ def main():
     if mode == "filter":
         n, seed = int(sys.argv[2]), int(sys.argv[3]); r = random.Random(seed); kept = int(sys.argv[4]) if len(sys.argv) > 4 else 0; n += kept; tried = 0
         pool = []
+        only = os.environ.get("VERIF_MUT_ONLY", "").split(",") if os.environ.get("VERIF_MUT_ONLY") else None
         for path, props in TARGETS:
+            if only and not any(path.endswith(o) for o in only): continue
             src, c = candidates(path)
             for x in c: pool.append((path, props, x))
         r.shuffle(pool)
